@@ -1791,7 +1791,7 @@ coap_send_internal(coap_session_t *session, coap_pdu_t *pdu) {
     }
   }
 
-  if (session->echo) {
+  if (session->echo && COAP_PDU_IS_REQUEST(pdu)) {
     if (!coap_insert_option(pdu, COAP_OPTION_ECHO, session->echo->length,
                             session->echo->s))
       goto error;
